@@ -317,10 +317,26 @@ func (g *gen) kindPair(explicit bool) []*Type {
 				if g.chance("kpDynArr", 40) {
 					arr = DynArray(Prim("int32"))
 				}
-				if len(recs) > 0 && g.chance("kpArrRec", 50) {
-					return []*Type{arr, pick(recs, "kpRecC")}
+				// a string-keyed map is a JSON object too; its key may be spelled through an alias of string
+				key := Prim("string")
+				for _, sd := range g.avail {
+					if sd.def.Kind == DAlias && len(sd.def.TypeParams) == 0 && sd.def.Type != nil && sd.def.Type.Kind == KPrim && sd.def.Type.Prim == "string" && g.chance("kpKeyAlias", 60) {
+						key = Ref(sd.ns, sd.def.Name)
+						break
+					}
 				}
-				return []*Type{arr, Map(Prim("string"), Prim("int32"))}
+				m := Map(key, Prim("int32"))
+				switch g.intn("kpObjPair", 3) {
+				case 0:
+					if len(recs) > 0 {
+						return []*Type{m, pick(recs, "kpRecC")}
+					}
+				case 1:
+					if len(recs) > 0 {
+						return []*Type{arr, pick(recs, "kpRecD")}
+					}
+				}
+				return []*Type{arr, m}
 			}
 		}
 	}
@@ -811,6 +827,10 @@ func (g *gen) aliasDef(name string) *Def {
 	g.params = d.TypeParams
 	g.used = map[string]bool{}
 	d.Type = g.top(1)
+	if len(d.TypeParams) == 0 && g.cfg.AliasKeyPct > 0 && g.chance("aliasOfKeyPrim", 20) {
+		// a plain name for a primitive (`ChannelName: string`), usable wherever the primitive is
+		d.Type = Prim([]string{"string", "string", "int32", "uint64"}[g.intn("aliasKeyPrim", 4)])
+	}
 	if g.cfg.Excl["union-nested-in-alias"] {
 		for tries := 0; tries < 6 && hasNestedUnion(d.Type); tries++ {
 			if g.cfg.ExclCount != nil {
@@ -864,7 +884,13 @@ func (g *gen) defs(p *Package, n int, prefix string) {
 	for i := 0; i < n; i++ {
 		var d *Def
 		k := g.intn("defKind", 10)
+		if i == 0 && g.cfg.AliasKeyPct > 0 && g.chance("firstDefKeyAlias", g.cfg.AliasKeyPct) {
+			// start with a plain name for string, available to everything that follows
+			d = &Def{Kind: DAlias, Name: fmt.Sprintf("%sAl%d", prefix, i), Type: Prim("string")}
+			k = -1
+		}
 		switch {
+		case k < 0:
 		case k < 4:
 			d = g.recordDef(fmt.Sprintf("%sRec%d", prefix, i))
 		case k < 6:
